@@ -85,7 +85,7 @@ func (p *pool) start(slot string) (*workerProc, error) {
 	// "panic.<time>" next to the executable before it calls os.Exit.
 	script := fmt.Sprintf(`ulimit -v %d; ulimit -c 0; cd "$1" && exec -a "$1/c05-worker" "$0" --worker "$2"`, workerVMemKiB)
 	cmd := exec.Command("bash", "-c", script, p.bin, dir, shmPath)
-	cmd.SysProcAttr = &syscall.SysProcAttr{Setpgid: true}
+	cmd.SysProcAttr = &syscall.SysProcAttr{Setpgid: true, Pdeathsig: syscall.SIGKILL} // workers never outlive the check
 	cmd.Env = append(os.Environ(), "GOMAXPROCS=1", "GOTRACEBACK=all")
 	cmd.ExtraFiles = []*os.File{cr, rw}
 	w := &workerProc{dir: dir, cmd: cmd, in: cw, stderr: &tailBuf{}, shm: shm, lines: make(chan lineEv, 64)}
@@ -177,6 +177,7 @@ type death struct {
 	exitCode int
 	stderr   string
 	dumpFile string
+	oomBlock uint64 // size of the allocation that failed
 }
 
 // reap waits for a dead worker and classifies the death from the outside:
@@ -211,6 +212,7 @@ func (w *workerProc) reap(hung bool) *death {
 		d.site = recursionSite(d.stderr)
 	case strings.Contains(d.stderr, "out of memory") || strings.Contains(d.stderr, "cannot allocate memory"):
 		d.reason = "out-of-memory"
+		fmt.Sscanf(afterFirst(d.stderr, "cannot allocate "), "%d-byte block", &d.oomBlock)
 		d.site = faultSite(afterFirst(d.stderr, "\ngoroutine "))
 	case d.exitCode == 255 && dump != "":
 		d.reason = "exit-via-CheckPanic"
